@@ -434,6 +434,10 @@ def gen_files():
 
 
 TRACKED_CFG_ROUTES = ["cli", "top", "override", "override_prefix"]
+# overrides for *other* modules must change nothing — including near misses: module names that share
+# a string prefix with the checked module's dotted name without being it or one of its parent packages
+# (the checked module is pa.pb, or pa.pbb / pa.pb_x / pab.pb for an override of pa.pb / pa)
+NEAR_MISS_ROUTES = ["override_other", "near_str_prefix", "near_short", "near_sibling", "near_sibling2", "near_parent_sibling", "near_longer"]
 
 
 def raw_independent(raw0, raw1, enabled):
@@ -462,6 +466,21 @@ def make_cfg(route, S, extra_on=("unused_ignore", "bare_ignore")):
         cfg["override"] = ["pa", S]
     elif route == "override_other":  # an override for another module must change nothing
         cfg["override"] = ["pc", S]
+    elif route == "near_str_prefix":  # "pa.p" is a string prefix of "pa.pb", not a package of it
+        cfg["override"] = ["pa.p", S]
+    elif route == "near_short":  # "p" is a string prefix of "pa"
+        cfg["override"] = ["p", S]
+    elif route == "near_sibling":  # the override names pa.pb, the checked module is pa.pbb
+        cfg["override"] = ["pa.pb", S]
+        cfg["module"] = "pa.pbb"
+    elif route == "near_sibling2":
+        cfg["override"] = ["pa.pb", S]
+        cfg["module"] = "pa.pb_x.sub"
+    elif route == "near_parent_sibling":  # the override names pa, the checked module is pab.pb
+        cfg["override"] = ["pa", S]
+        cfg["module"] = "pab.pb"
+    elif route == "near_longer":  # the override names a submodule of the checked module
+        cfg["override"] = ["pa.pb.sub", S]
     return cfg
 
 
@@ -632,12 +651,15 @@ def run(tier: str, replay: str | None = None):
                 for ci, c in enumerate(singles):
                     route = TRACKED_CFG_ROUTES[(bi + ci) % len(TRACKED_CFG_ROUTES)]
                     variants.append({"base": bi, "cfg": make_cfg(route, [c]), "edits": []})
+                # every near-miss override, for the codes the program reports: nothing may change
+                for ri, route in enumerate(NEAR_MISS_ROUTES):
+                    variants.append({"base": bi, "cfg": make_cfg(route, present if ri % 2 else [present[(bi + ri) % len(present)]]), "edits": []})
                 n_sub = 3 if tier == "quick" else 8
                 for si in range(n_sub):
                     S = [c for c in singles if rng.random() < 0.4] or [rng.choice(present)]
                     if si == 0:
                         S = S + [rng.choice(["bad_unpack", "unused_ignore"])]
-                    route = rng.choice(TRACKED_CFG_ROUTES + ["override_other"]) if si else "cli"
+                    route = rng.choice(TRACKED_CFG_ROUTES + NEAR_MISS_ROUTES) if si else "cli"
                     cfg = make_cfg(route, S)
                     variants.append({"base": bi, "cfg": cfg, "edits": []})
                     # comments under a disabling configuration
@@ -720,7 +742,7 @@ def run(tier: str, replay: str | None = None):
         want = collections.Counter(d for d in d0s[bi] if d[0] in en)
         got = collections.Counter(tuple(x) for x in r["out"])
         n_oracle += 1
-        hist["disable_" + ("cli" if cfg["cli_off"] else "top" if cfg["top_off"] else "override")] += 1
+        hist["disable_" + ("cli" if cfg["cli_off"] else "top" if cfg["top_off"] else ("override" if set(en) != set(enabled_names(base_cfg, names, dit)) else "override_near_miss"))] += 1
         distinct.add(("disable", bi, cj))
         if want != got:
             failing.append({"kind": "failing-input", "what": "disable is not a projection",
